@@ -170,9 +170,27 @@ class UtfCheck(vlib.Check):
             return ok_shape(impl) or (self.any_allows_throw and impl == 'THROW unicode_error')
         if spec == 'ANY':
             return ok_shape(impl) or impl == 'THROW unicode_error'
-        if spec.endswith('fnv=*'):
-            return impl.startswith('OK n=') and impl.split()[1] == spec.split()[1]
+        if spec.startswith('OK n='):          # digest mode
+            a, b = impl.split(), spec.split()
+            if len(a) != 4 or a[0] != 'OK' or a[1] != b[1]:
+                return False
+            k = 3 if self.shape_only else 2
+            return b[k].endswith('=*') or a[k] == b[k]
+        if self.shape_only:
+            return self.allowed_shape(impl, spec)
         return impl == spec
+
+    shape_only = False            # C03 constrains outcome class, size and terminator, not the units
+
+    def allowed_shape(self, impl, spec):
+        """C03: a safe outcome, and when both sides hold a buffer, the same size"""
+        if impl == 'THROW unicode_error':
+            return True
+        if not ok_shape(impl):
+            return False
+        if spec.startswith('OK '):
+            return impl.split()[-2:] == spec.split()[-2:]
+        return True
 
     def same(self, case, impl, model):
         if model.endswith(' ~'):
